@@ -356,6 +356,17 @@ func c20c(c *Ctx) {
 		if n != 1 {
 			c.Bad(name+"/redefinition/site", c.W.FuncPos(fn), fmt.Sprintf("expected one store into p.constants, found %d", n))
 		}
+		// the duplicate test looks the name up in p.constants: every accepted definition must be
+		// in that map, whatever its value
+		isStore := func(in ssa.Instruction) bool {
+			mu, ok := in.(*ssa.MapUpdate)
+			return ok && c.term(fn, mu.Map) == "$0.constants"
+		}
+		_, unrecorded := existsPath(pathQuery{from: entry(fn), avoid: isStore, edgeOK: notErrorEdge, target: func(in ssa.Instruction) bool {
+			r, ok := in.(*ssa.Return)
+			return ok && isSuccessReturn(r)
+		}})
+		c.Check(!unrecorded, name+"/redefinition/every-definition-recorded", c.W.FuncPos(fn), "every accepted const definition is recorded in p.constants", "a const definition can be accepted without being recorded in p.constants: a later redefinition of the same name would not be detected")
 	}
 }
 
